@@ -28,6 +28,7 @@ import (
 type Config struct {
 	SB          *Sandbox
 	Sidecar     bool
+	SidecarDir  string // with Sidecar: the directory as given to the gateway (default SB.Sidecar); may be spelled uncleanly ("/x/sc/", "/x//sc")
 	Versioning  bool
 	NoOTmp      bool
 	ReadOnly    bool
@@ -111,12 +112,16 @@ func StartInProc(c Config) (*InProc, error) {
 	}
 	var ms meta.MetadataStorer = meta.XattrMeta{}
 	if c.Sidecar {
-		sc, err := meta.NewSideCar(c.SB.Sidecar)
+		dir := c.SB.Sidecar
+		if c.SidecarDir != "" {
+			dir = c.SidecarDir
+		}
+		sc, err := meta.NewSideCar(dir) // (cmd/versitygw/posix.go hands the flag's value over as typed)
 		if err != nil {
 			return nil, err
 		}
 		ms = sc
-		opts.SideCarDir = c.SB.Sidecar
+		opts.SideCarDir = dir
 	}
 	// posix.New makes the storage root the working directory of the process and the backend works with paths
 	// relative to it: engines on different sandboxes take turns (enterRoot) instead of sharing the last one's root
